@@ -1120,7 +1120,19 @@ def drv_select(case):
     """StingyConfigurator.select with harness solvers; case: recipe (Cfg), prios (list of dicts over tokens = real ids), solver, only_leafs"""
     import puan, puan.ndarray as pnd
     from . import solvers
-    m = _mk(case)
+    if case.get("via_add"):
+        # the configurator is built from all rules but the last, queried, and then extended by add(): by the design (PuanAPI.Add)
+        # the result is the configurator the whole recipe denotes
+        r0 = dict(case["recipe"]); r0["a"] = list(case["recipe"]["a"][:-1])
+        m0 = B.build(r0, style=case.get("style", 0))
+        try:
+            m0.default_prios; m0.ge_polyhedron; list(m0.select({}, solver=solvers.Capture("capture"))); m0.leafs()
+            m = m0.add(B.build(case["recipe"]["a"][-1], style=case.get("style", 0)))
+        except (KeyboardInterrupt, SystemExit): raise
+        except BaseException as ex:
+            return [{"op": "exc", "exc": type(ex).__name__, "msg": str(ex)[:150], "where": "configurator built by add() after queries"}]
+    else:
+        m = _mk(case)
     if proj.is_var(m): return []            # the domain (well defined, consistent tags) is decided by TLC on the projection
     if m.errors():
         # a model the library's own validation rejects may make the library raise: that is not recorded (TLC still decides
